@@ -7,7 +7,7 @@ use xeh::prelude::*;
 
 pub const DEF: PropDef = PropDef {
     id: "C07",
-    rule: "field lists (1-12 fields quick, 1-40 thorough) of Int{width 1..128, signed|unsigned(<=127), byte order, value incl. boundary values}, F32/F64{order, any bit pattern held in a variable}, Raw{0-40 bits}, Str{utf-8}, Bytes{list, nested vectors}; byte order switched between fields with big/little or fixed by the uNle!/uNbe! spellings. \
+    rule: "field lists (1-12 fields quick, 1-40 thorough) of Int{width 1..128, signed|unsigned(<=127), byte order, value incl. boundary values}, F32/F64{order, any bit pattern held in a variable}, Raw{0-40 bits, as a literal or as a slice cut out of a larger buffer at a non-zero bit offset}, Str{utf-8}, Bytes{ints inline, as a list, in nested vectors}; in (a) the field sequence is additionally bracketed into nested vectors at generated places; byte order switched between fields with big/little or fixed by the uNle!/uNbe! spellings. \
 (a) `[ f1 .. fn ] >bitstr`; (b) output interception on and the same fields emitted over a generated partition into 1..n emit calls; then `open-bitstr` + the matching read word per field + remain. \
 Oracle: product length = sum of widths and its bits = concatenation of a reference encoding of every field; parsed values = originals reduced to the field; remain = 0; `output` = product bit for bit, `output-length` = its length, for every partition. \
 Non-trivial = a little-endian or multi-byte field starts off a byte boundary, or a partition with >=2 emits has an unaligned seam; distinct = hash of the field list and partition",
@@ -31,6 +31,8 @@ enum Field {
     F32 { big: bool, bits: u32, spelling: u8 },
     F64 { big: bool, bits: u64, spelling: u8 },
     Raw(Vec<bool>),
+    /// a raw field that is a slice of a larger buffer, starting `u8` bits into it (never at bit 0 of its buffer)
+    Sliced(Vec<bool>, u8),
     Str(String),
     Bytes(Vec<u8>, u8),
 }
@@ -85,13 +87,18 @@ fn gen_field(ch: &mut Choices) -> Field {
             Field::F64 { big: ch.bool(), bits, spelling: ch.below(4) as u8 }
         }
         3 => {
-            let n = ch.below(41);
-            Field::Raw((0..n).map(|_| ch.bool()).collect())
+            let n = if ch.chance(1, 3) { 8 * ch.below(5) } else { ch.below(41) };
+            let bits: Vec<bool> = (0..n).map(|_| ch.bool()).collect();
+            if ch.chance(1, 3) {
+                Field::Sliced(bits, 1 + ch.below(12) as u8)
+            } else {
+                Field::Raw(bits)
+            }
         }
         4 => Field::Str(TEXTS[ch.below(TEXTS.len())].to_string()),
         _ => {
             let n = ch.below(6);
-            Field::Bytes(ch.bytes(n), ch.below(3) as u8)
+            Field::Bytes(ch.bytes(n), ch.below(4) as u8)
         }
     }
 }
@@ -101,7 +108,7 @@ fn width(f: &Field) -> usize {
         Field::Int { w, .. } => *w,
         Field::F32 { .. } => 32,
         Field::F64 { .. } => 64,
-        Field::Raw(b) => b.len(),
+        Field::Raw(b) | Field::Sliced(b, _) => b.len(),
         Field::Str(s) => s.len() * 8,
         Field::Bytes(b, _) => b.len() * 8,
     }
@@ -134,7 +141,7 @@ fn encode(f: &Field) -> Vec<bool> {
             }
             bytes_bits(&b)
         }
-        Field::Raw(b) => b.clone(),
+        Field::Raw(b) | Field::Sliced(b, _) => b.clone(),
         Field::Str(s) => bytes_bits(s.as_bytes()),
         Field::Bytes(b, _) => bytes_bits(b),
     }
@@ -179,6 +186,13 @@ fn pack_src(f: &Field, idx: usize, cur_big: &mut bool) -> String {
             }
         }
         Field::Raw(b) => s.push_str(&bits_lit(b)),
+        Field::Sliced(b, off) => {
+            // cut the field out of a larger literal: junk before (so the slice does not start at bit 0) and after
+            let mut whole: Vec<bool> = (0..*off as usize).map(|i| i % 3 == 0).collect();
+            whole.extend(b.iter().cloned());
+            whole.extend([true, false, true, true, false].iter().cloned());
+            s.push_str(&format!("{} open-bitstr {} bits drop {} bits close-bitstr", bits_lit(&whole), off, b.len()));
+        }
         Field::Str(t) => s.push_str(&str_lit(t)),
         Field::Bytes(b, nest) => {
             // ints directly in the enclosing vector, or in nested vectors
@@ -186,6 +200,7 @@ fn pack_src(f: &Field, idx: usize, cur_big: &mut bool) -> String {
             match nest {
                 0 => s.push_str(&format!("[ {} ]", items.join(" "))),
                 1 => s.push_str(&format!("[ [ {} ] ]", items.join(" "))),
+                3 => s.push_str(&items.join(" ")), // bare ints, items of the enclosing vector
                 _ => {
                     let (a, c) = items.split_at(items.len() / 2);
                     s.push_str(&format!("[ {} [ {} ] ]", a.join(" "), c.join(" ")));
@@ -233,7 +248,7 @@ fn parse_src(f: &Field, cur_big: &mut bool) -> String {
                 }
             }
         }
-        Field::Raw(b) => s.push_str(&format!("{} bits", b.len())),
+        Field::Raw(b) | Field::Sliced(b, _) => s.push_str(&format!("{} bits", b.len())),
         Field::Str(t) => s.push_str(&format!("{} bytes bitstr>utf8", t.len())),
         Field::Bytes(b, _) => s.push_str(&format!("{} bytes", b.len())),
     }
@@ -268,7 +283,7 @@ fn check_parsed(f: &Field, got: &Cell) -> Option<String> {
                 other => Some(format!("parsed {} expected {:?}", xs::render(other), want)),
             }
         }
-        Field::Raw(_) | Field::Bytes(..) => match got.value() {
+        Field::Raw(_) | Field::Sliced(..) | Field::Bytes(..) => match got.value() {
             Cell::Bitstr(b) if bits_of(b) == enc => None,
             other => Some(format!("parsed {} expected bits {}", xs::render(other), show(&enc))),
         },
@@ -321,9 +336,27 @@ pub fn case(ch: &mut Choices, ctx: &CaseCtx) -> CaseOut {
     let mut cur_big = false;
     let mut src_a = String::from(if start_big { "big [ " } else { "little [ " });
     cur_big = start_big || cur_big && false;
+    // any bracketing of the field sequence into nested vectors denotes the same concatenation
+    let mut open: Vec<usize> = Vec::new(); // remaining fields of each open group
+    let mut grouped = false;
     for (i, f) in fields.iter().enumerate() {
+        if open.len() < 2 && ch.chance(1, 4) {
+            src_a.push_str("[ ");
+            open.push(1 + ch.below(3));
+            grouped = true;
+        }
         src_a.push_str(&pack_src(f, i, &mut cur_big));
         src_a.push(' ');
+        for g in open.iter_mut() {
+            *g = g.saturating_sub(1);
+        }
+        while open.last() == Some(&0) {
+            open.pop();
+            src_a.push_str("] ");
+        }
+    }
+    for _ in 0..open.len() {
+        src_a.push_str("] ");
     }
     src_a.push_str("] >bitstr");
     // ---- parse program -------------------------------------------------------
@@ -379,7 +412,7 @@ pub fn case(ch: &mut Choices, ctx: &CaseCtx) -> CaseOut {
                     let kind = match &fields[fi] {
                         Field::Int { .. } => "int",
                         Field::F32 { .. } | Field::F64 { .. } => "float",
-                        Field::Raw(_) => "raw",
+                        Field::Raw(_) | Field::Sliced(..) => "raw",
                         Field::Str(_) => "str",
                         Field::Bytes(..) => "bytes",
                     };
@@ -410,7 +443,7 @@ pub fn case(ch: &mut Choices, ctx: &CaseCtx) -> CaseOut {
                                     }
                                 }
                                 Field::F32 { .. } | Field::F64 { .. } => "float",
-                                Field::Raw(_) => "raw",
+                                Field::Raw(_) | Field::Sliced(..) => "raw",
                                 Field::Str(_) => "str",
                                 Field::Bytes(..) => "bytes",
                             };
@@ -510,6 +543,12 @@ pub fn case(ch: &mut Choices, ctx: &CaseCtx) -> CaseOut {
     }
     if fields.iter().any(|f| matches!(f, Field::F32 { .. } | Field::F64 { .. })) {
         out.class("float");
+    }
+    if grouped {
+        out.class("nested-vector-groups");
+    }
+    if fields.iter().any(|f| matches!(f, Field::Sliced(..))) {
+        out.class("raw-field-sliced-from-a-larger-buffer");
     }
     out.hash = hash_of(&(fields.clone(), cuts.clone(), start_big));
     if ctx.want_render || out.fail.is_some() {
